@@ -39,8 +39,33 @@ def shape_of(j):
                               variants=[[(f['name'], f['ty']) for f in v['fields']] for v in a['variants']],
                               vnames=[v['name'] for v in a['variants']])
     fns = {}
+    local_keys = {b['key'] for b in j['bodies']}
+
+    def refs_of(b):
+        out = set()
+
+        def ops(o):
+            if isinstance(o, dict):
+                if o.get('k') == 'const' and isinstance(o.get('c'), dict) and o['c'].get('fn') in local_keys:
+                    out.add(o['c']['fn'])
+                if o.get('closure') in local_keys:
+                    out.add(o['closure'])
+                for v in o.values():
+                    ops(v)
+            elif isinstance(o, list):
+                for v in o:
+                    ops(v)
+        for blk in b['blocks']:
+            t = blk['term']
+            if t['k'] == 'call':
+                ck = t['callee'].get('resolved') or t['callee'].get('key')
+                if ck in local_keys:
+                    out.add(ck)
+            ops(blk)
+        out.discard(b['key'])
+        return sorted(out)
     for b in j['bodies']:
-        fns[b['key']] = dict(key=b['key'], name=b.get('name'), pretty=b['pretty'], kind=b['kind'], parent=b.get('parent'),
+        fns[b['key']] = dict(refs=refs_of(b), key=b['key'], name=b.get('name'), pretty=b['pretty'], kind=b['kind'], parent=b.get('parent'),
                              impl_self_adt=b.get('impl_self_adt'), impl_self_ty=b.get('impl_self_ty'), impl_trait=b.get('impl_trait'),
                              impl_trait_ref=b.get('impl_trait_ref'), trait_default_of=b.get('trait_default_of'),
                              arg_tys=[l['ty'] for l in b['locals'][1:1 + b['arg_count']]], ret_ty=b['locals'][0]['ty'],
@@ -249,6 +274,35 @@ class Alignment:
             rs = by_r.get(key, [])
             if len(cs) == 1 and len(rs) == 1:
                 self.fn[cs[0]] = rs[0]
+        # 2b. same parent and signature, several candidates (a function was renamed AND a helper with the same signature was
+        # split off it): the one used from the same places. Callers are compared as the named functions they (or, for closures,
+        # their enclosing functions) are aligned with.
+        def callers(fns, to_ref):
+            def root(k):
+                while k in fns and fns[k]['kind'] == 'Closure' and fns[k].get('parent'):
+                    k = fns[k]['parent']
+                return k
+            out = defaultdict(set)
+            for k, f in fns.items():
+                rk = root(k)
+                rk = to_ref(rk)
+                for r_ in f.get('refs', ()):
+                    if root(r_) != root(k):
+                        out[r_].add(rk)
+            return out
+        ccall = callers(cur, lambda k: self.fn.get(k))
+        rcall = callers(ref, lambda k: k)
+        un_r = [k for k in items_r if k not in self.fn.values()]
+        by_r = defaultdict(list)
+        for k in un_r:
+            by_r[(parent_id(items_r[k], rtok, radt), sig(items_r[k], rtok))].append(k)
+        for key, cs in by_c.items():
+            cs = [c for c in cs if c not in self.fn]
+            rs = [r for r in by_r.get(key, []) if r not in self.fn.values()]
+            if len(rs) == 1 and len(cs) > 1 and rcall.get(rs[0]):
+                same = [c for c in cs if ccall.get(c) and None not in ccall[c] and ccall[c] == rcall[rs[0]]]
+                if len(same) == 1:
+                    self.fn[same[0]] = rs[0]
         # 3. moved between modules / inherent <-> free: same name, unique on both sides, same arity
         un_c = [k for k in items_c if k not in self.fn]
         un_r = [k for k in items_r if k not in self.fn.values()]
